@@ -618,7 +618,7 @@ fn fault() -> impl Strategy<Value = Fault> {
 		1 => any::<u16>().prop_map(|sel| Fault::WrongKind { sel }),
 		3 => (any::<u16>(), any::<u8>()).prop_map(|(sel, which)| Fault::MissingRequired { sel, which }),
 		3 => (any::<u16>(), any::<bool>(), bad).prop_map(|(sel, max, value)| Fault::BadNumber { sel, max, value }),
-		3 => (any::<u16>(), any::<u8>(), pvec(bare_string(), 1..=3)).prop_map(|(sel, which, extra)| Fault::ListForScalar { sel, which, extra }),
+		3 => (any::<u16>(), any::<u8>(), pvec(bare_string(), 0..=3)).prop_map(|(sel, which, extra)| Fault::ListForScalar { sel, which, extra }),
 		2 => (any::<u16>(), select(vec![1u8, 2, 3, 5, 6])).prop_map(|(sel, n)| Fault::BboxArity { sel, n }),
 		2 => (any::<u16>(), 0u8..4, word()).prop_map(|(sel, idx, word)| Fault::BboxWord { sel, idx, word }),
 	]
@@ -760,6 +760,11 @@ fn apply_fault(tree: &mut Tree, fault: &Fault) -> String {
 			let key = params[*which as usize % params.len()];
 			let n = node_mut(tree, info.idx, &mut 0).unwrap();
 			let current = n.props.iter().find(|(k, _)| k == key).and_then(|(_, v)| if let Val::One(s) = v { Some(s.clone()) } else { None });
+			if extra.is_empty() {
+				// a list without entries where one value is expected (`min=[]`)
+				set_prop(n, key, Val::List(vec![]));
+				return format!("empty-list-for-scalar:{}.{key}{}", info.name, place(&info));
+			}
 			let mut list = vec![current.unwrap_or_else(|| "3".to_string())];
 			if info.name == "filter_zoom" {
 				list.extend(extra.iter().enumerate().map(|(i, _)| (4 + i).to_string()));
